@@ -56,12 +56,14 @@ Record jcfg := mkCfg {
   cfg_k_cat : bytes;                    (* KEY_MESSAGE_CSTR *)
   cfg_mono_div : Z;                     (* `mu as f64 / 1000000.0` *)
   cfg_mono_width : nat; cfg_mono_prec : nat;   (* format!("{:>12.6}", mud) *)
-  cfg_mono_blank : bytes                (* "[            ]" *)
+  cfg_mono_blank : bytes;               (* "[            ]" *)
+  cfg_mono_needs_host : bool            (* does get_monotonic_usec call sd_id128_get_boot (the HOST's boot id) first? *)
 }.
 
 (* what one run adds to the entry: the zone of --tz-offset and one bit of the HOST.
-   get_monotonic_usec first calls `sd_id128_get_boot` (the boot id of the machine s4 runs on) and
-   returns None when that fails — before it ever asks the journal for the entry's monotonic time. *)
+   When [cfg_mono_needs_host] (scraped): get_monotonic_usec first calls `sd_id128_get_boot` (the boot id
+   of the machine s4 runs on) and returns None when that fails — before it ever asks the journal
+   for the entry's monotonic time. *)
 Record env := mkEnv { env_off : Z; env_boot_ok : bool }.
 
 (* ------------------------------------------------------------------ which instant is shown *)
@@ -200,8 +202,9 @@ Definition pad_left (w : nat) (s : bytes) : bytes := repeat 32 (w - length s) ++
 Definition fmt_mono (cfg : jcfg) (mu : N) : bytes :=
   pad_left (cfg_mono_width cfg) (fmt_fixed (cfg_mono_prec cfg) (mono_scaled (cfg_mono_div cfg) (cfg_mono_prec cfg) (Z.of_N mu))).
 
-(* get_monotonic_usec *)
-Definition mono_usec (ev : env) (e : entry) : option N := if env_boot_ok ev then e_mono e else None.
+(* get_monotonic_usec: when it first asks the host for its boot id, a failure there ends it *)
+Definition mono_usec (cfg : jcfg) (ev : env) (e : entry) : option N :=
+  if cfg_mono_needs_host cfg && negb (env_boot_ok ev) then None else e_mono e.
 
 (* ------------------------------------------------------------------ next_short *)
 
@@ -273,7 +276,7 @@ Definition short_tail (st : sfound) : bytes :=
 (* field 1 *)
 Definition short_head (cfg : jcfg) (ev : env) (fmt : bytes) (mono : bool) (e : entry) : option bytes :=
   if mono then
-    Some (match mono_usec ev e with
+    Some (match mono_usec cfg ev e with
           | Some mu => bracketed (fmt_mono cfg mu)
           | None => cfg_mono_blank cfg
           end)
@@ -355,7 +358,7 @@ Fixpoint take_ordered (cfg : jcfg) (order : list bytes) (m : list field) : bytes
 Definition verbose_map (cfg : jcfg) (ev : env) (e : entry) : list field :=
   let m := vm_of cfg (firstn (cfg_emerg_verbose cfg) (raw_data e)) in
   if vm_mem (cfg_k_mono cfg) m then m
-  else match mono_usec ev e with
+  else match mono_usec cfg ev e with
        | Some mu => vm_insert (cfg_k_mono cfg) (dec mu) m
        | None => m
        end.
@@ -376,8 +379,8 @@ Definition render_verbose (cfg : jcfg) (ev : env) (e : entry) : option bytes :=
 (* ------------------------------------------------------------------ export, cat: Model/Journal.v *)
 
 (* the entry as this host's run sees it (monotonic time only when get_monotonic_usec succeeds) *)
-Definition host_view (ev : env) (e : entry) : entry :=
-  mkEntry (e_time e) (e_cursor e) (mono_usec ev e) (e_fields e).
+Definition host_view (cfg : jcfg) (ev : env) (e : entry) : entry :=
+  mkEntry (e_time e) (e_cursor e) (mono_usec cfg ev e) (e_fields e).
 
 (* ------------------------------------------------------------------ next_dispatch, exec_journalprocessor *)
 
@@ -390,7 +393,7 @@ Definition next_entry (cfg : jcfg) (ev : env) (o : output) (e : entry) : next_re
   match cfg_dispatch cfg o with
   | DShort fmt mono => of_opt (render_short cfg ev fmt mono e)
   | DVerbose => of_opt (render_verbose cfg ev e)
-  | DExport => NFound (render_export (host_view ev e))
+  | DExport => NFound (render_export (host_view cfg ev e))
   | DCat => match get_data (cfg_k_cat cfg) e with
             | Some m => NFound (m ++ [NL])
             | None => NErrIgnore
@@ -429,3 +432,53 @@ Definition dispatch_fmt_ok (d : dispatch) : bool :=
   match d with DShort fmt false => fmt_accepted fmt | _ => true end.
 Definition cfg_formats_ok (cfg : jcfg) : bool :=
   forallb (fun o => dispatch_fmt_ok (cfg_dispatch cfg o)) all_outputs && fmt_accepted (cfg_fmt_verbose cfg).
+
+(* the entries handed to the renderer, each with what the renderer returned *)
+Definition journal_trace10 sd_head sd_rt stop (cfg : jcfg) (ev : env) (o : output)
+           (A B : option Z) (j : journal) : list (entry * next_res) :=
+  map (fun e => (e, next_entry cfg ev o e)) (journal_run sd_head sd_rt stop A B j).
+
+(* the six keys of next_short are pairwise different, so that the first matching arm is the only one *)
+Definition short_keys (cfg : jcfg) : list bytes :=
+  [cfg_k_host cfg; cfg_k_ident cfg; cfg_k_spid cfg; cfg_k_comm cfg; cfg_k_pid cfg; cfg_k_msg cfg].
+Fixpoint distinctb (l : list bytes) : bool :=
+  match l with
+  | [] => true
+  | k :: r => negb (existsb (beqb k) r) && distinctb r
+  end.
+
+(* decidable conditions under which the theorems of Proofs/JournalRender*.v hold; Gen/JournalTables.v ::
+   src_cfg satisfies them (Proofs/JournalRenderCfg.v, by computation: it fails when the source changes
+   in a way the theorems do not cover) *)
+Definition cfg_ok (cfg : jcfg) : bool :=
+  cfg_formats_ok cfg
+  && distinctb (short_keys cfg)
+  && (Nat.eqb (length (cfg_short_need cfg)) 6 && nth 5 (cfg_short_need cfg) false)   (* the early end needs MESSAGE *)
+  && beqb (cfg_k_cat cfg) (cfg_k_msg cfg)
+  && negb (beqb (cfg_k_msg cfg) (cfg_k_selinux cfg))
+  && negb (beqb (cfg_k_msg cfg) (cfg_k_mono cfg))
+  && negb (beqb (cfg_k_msg cfg) (cfg_k_source_rt cfg))
+  && Nat.eqb (cfg_emerg_export cfg) EMERG_STOP.
+
+Definition is_cat (d : dispatch) : bool := match d with DCat => true | _ => false end.
+
+(* [a] occurs in [b] as a contiguous block *)
+Definition infix (a b : bytes) : Prop := exists p s, b = p ++ a ++ s.
+
+(* the configuration with / without the call of sd_id128_get_boot in get_monotonic_usec *)
+Definition set_needs_host (b : bool) (cfg : jcfg) : jcfg :=
+  mkCfg (cfg_override cfg) (cfg_dispatch cfg) (cfg_fmt_verbose cfg) (cfg_order cfg) (cfg_field_beg cfg)
+        (cfg_emerg_short cfg) (cfg_emerg_verbose cfg) (cfg_emerg_export cfg)
+        (cfg_k_host cfg) (cfg_k_ident cfg) (cfg_k_spid cfg) (cfg_k_comm cfg) (cfg_k_pid cfg) (cfg_k_msg cfg)
+        (cfg_short_need cfg) (cfg_k_selinux cfg) (cfg_trim cfg) (cfg_k_source_rt cfg) (cfg_k_mono cfg) (cfg_k_cat cfg)
+        (cfg_mono_div cfg) (cfg_mono_width cfg) (cfg_mono_prec cfg) (cfg_mono_blank cfg) b.
+
+(* boolean test of [infix] *)
+Fixpoint prefixb (a b : bytes) : bool :=
+  match a, b with
+  | [], _ => true
+  | x :: a', y :: b' => (x =? y) && prefixb a' b'
+  | _ :: _, [] => false
+  end.
+Fixpoint infixb (a b : bytes) : bool :=
+  prefixb a b || match b with [] => false | _ :: b' => infixb a b' end.
